@@ -294,3 +294,76 @@ package state
 //@ ensures[default-reported] resp.DefaultAllow == opts.DefaultAllow
 //@ modifies nothing
 //@ loop 1 invariant[none-before] ixnMatch == nil && forall j int :: 0 <= j && j < range1_idx ==> !connect.IntentionMatch(opts.Target, opts.Namespace, opts.Partition, opts.Peer, opts.Intentions[j], opts.MatchType)
+
+// ---- C10 / C12: Connect CA configuration and roots, autopilot configuration
+
+//@ file connect_ca.go
+
+//@ func Store.caSetConfigTxn
+//@ props C10
+//@ results err
+//@ requires config != nil
+//@ ensures[stored] err == nil ==> T_connect_ca_config() == config && config.ModifyIndex == idx
+//@ ensures[create-index] err == nil ==> config.CreateIndex == ite(old(T_connect_ca_config()) == nil, idx, old(T_connect_ca_config().CreateIndex))
+//@ ensures[cluster-id-sticky] err == nil && old(T_connect_ca_config()) != nil && old(config.ClusterID) == "" ==> config.ClusterID == old(T_connect_ca_config().ClusterID)
+//@ ensures[failed-unchanged] err != nil ==> T_connect_ca_config() == old(T_connect_ca_config())
+//@ modifies config.CreateIndex, config.ModifyIndex, config.ClusterID, T.connect-ca-config
+
+//@ func Store.CACheckAndSetConfig
+//@ props C10
+//@ results ok, err
+//@ requires config != nil
+//@ ensures[applied-iff-matched] ok ==> ite(old(T_connect_ca_config()) == nil, cidx == 0, old(T_connect_ca_config().ModifyIndex) == cidx)
+//@ ensures[mismatch-rejected] !ite(old(T_connect_ca_config()) == nil, cidx == 0, old(T_connect_ca_config().ModifyIndex) == cidx) ==> !ok && err != nil && T_connect_ca_config() == old(T_connect_ca_config()) && commits() == old(commits())
+//@ ensures[reported-iff-committed] commits() == ite(ok, old(commits()) + 1, old(commits()))
+//@ ensures[ok-stored] ok ==> T_connect_ca_config() == config && config.ModifyIndex == idx
+//@ ensures[ok-iff-no-error] ok <==> err == nil
+
+//@ func caRootSetCASTxn
+//@ props C10 C12
+//@ results err
+//@ requires forall j int :: 0 <= j && j < len(rs) ==> rs[j] != nil
+//@ ensures[mismatch-noop] old(idxVal("connect-ca-roots")) != cidx ==> (forall k string :: T_connect_ca_roots(k) == old(T_connect_ca_roots(k))) && (forall t string :: T_index(t) == old(T_index(t)))
+//@ ensures[applied-index] err == nil && old(idxVal("connect-ca-roots")) == cidx ==> idxVal("connect-ca-roots") == idx
+//@ ensures[frame-index] forall t string :: strLower(t) != "connect-ca-roots" ==> T_index(t) == old(T_index(t))
+//@ modifies T.connect-ca-roots, T.index, structs.CARoot.RaftIndex
+//@ loop 1 invariant true
+
+//@ func Store.CARootSetCAS
+//@ props C10 C12
+//@ results ok, err
+//@ requires forall j int :: 0 <= j && j < len(rs) ==> rs[j] != nil
+//@ ensures[applied-only-if-matched] ok ==> old(idxVal("connect-ca-roots")) == cidx
+//@ ensures[mismatch-reported] old(idxVal("connect-ca-roots")) != cidx ==> !ok && err == nil && (forall k string :: T_connect_ca_roots(k) == old(T_connect_ca_roots(k))) && (forall t string :: T_index(t) == old(T_index(t))) && commits() == old(commits())
+//@ ensures[reported-iff-committed] commits() == ite(ok, old(commits()) + 1, old(commits()))
+//@ ensures[ok-index] ok ==> idxVal("connect-ca-roots") == idx
+//@ ensures[err-not-ok] err != nil ==> !ok
+
+//@ func Store.CAIncrementProviderSerialNumber
+//@ props C12
+//@ results next, err
+//@ ensures[next] err == nil ==> next == ite(old(T_index("connect-ca-builtin-serial")) != nil, old(T_index("connect-ca-builtin-serial").Value), old(idxVal("connect-ca-builtin"))) + 1
+//@ ensures[stored] err == nil ==> idxVal("connect-ca-builtin-serial") == next
+//@ ensures[commit-iff-ok] commits() == ite(err == nil, old(commits()) + 1, old(commits()))
+
+//@ file autopilot.go
+
+//@ func autopilotSetConfigTxn
+//@ props C10
+//@ results err
+//@ requires config != nil
+//@ ensures[stored] err == nil ==> T_autopilot_config() == config && config.ModifyIndex == idx
+//@ ensures[create-index] err == nil ==> config.CreateIndex == ite(old(T_autopilot_config()) == nil, idx, old(T_autopilot_config().CreateIndex))
+//@ ensures[failed-unchanged] err != nil ==> T_autopilot_config() == old(T_autopilot_config())
+//@ modifies config.CreateIndex, config.ModifyIndex, T.autopilot-config
+
+//@ func Store.AutopilotCASConfig
+//@ props C10
+//@ results ok, err
+//@ requires config != nil
+//@ ensures[applied-only-if-matched] ok ==> old(T_autopilot_config()) != nil && old(T_autopilot_config().ModifyIndex) == cidx
+//@ ensures[matched-applies] err == nil && old(T_autopilot_config()) != nil && old(T_autopilot_config().ModifyIndex) == cidx ==> ok
+//@ ensures[mismatch-unchanged] !(old(T_autopilot_config()) != nil && old(T_autopilot_config().ModifyIndex) == cidx) ==> !ok && err == nil && T_autopilot_config() == old(T_autopilot_config()) && commits() == old(commits())
+//@ ensures[reported-iff-committed] commits() == ite(ok, old(commits()) + 1, old(commits()))
+//@ ensures[ok-stored] ok ==> T_autopilot_config() == config && config.ModifyIndex == idx
+//@ ensures[err-not-ok] err != nil ==> !ok
